@@ -120,14 +120,14 @@ func (f *fpx) secondOperand(r *lib.Rng, x *big.Int) *big.Int {
 		v.Add(x, d).Sub(v, big.NewInt(40))
 	case 4: // y = x + k*p +- d (difference near a multiple of p)
 		v.Mul(f.p, big.NewInt(int64(r.Intn(3)-1))).Add(v, x).Add(v, d).Sub(v, big.NewInt(40))
-	case 5: // y = 1/x +- small: product near 1 / p boundaries
-		xr := bf.Mod(x, f.p)
-		if xr.Sign() != 0 {
-			v.ModInverse(xr, f.p)
-			v.Add(v, big.NewInt(int64(r.Intn(3)-1)))
-			if r.Bool() {
-				v.Add(v, f.p)
-			}
+	case 5: // x*y = 0, +-1, +-2, +-3, +-c: the product sits on the reduction boundary
+		y := f.gen.Partner(r, x, big.NewInt(1))
+		if y == nil {
+			return f.gen.Raw(r)
+		}
+		v.Set(y)
+		if r.Bool() {
+			v.Add(v, f.p)
 		}
 	default:
 		return f.gen.Raw(r)
